@@ -12,6 +12,7 @@
 (* Constraint items (each mentions the signals listed in Mentions):        *)
 (*   C1, C1b (two different statements mentioning s1), C2 (s2), CA (sa[i]  *)
 (*   in the same loop), CC (c.x), CT (t1), Q (u <== expression with s1),   *)
+(*   CN1 / CN2 (anonymous call whose first / second `<==` input is s1),    *)
 (*   QR (expression with s2 ==> w), C0 (inputs only)                       *)
 (* Ref: one finding per (assigning statement, assigned signal); when it is *)
 (* the `signal assignment` kind its secondary locations are exactly the    *)
@@ -23,14 +24,15 @@ EXTENDS Integers, Sequences, FiniteSets, TLC, Json, SequencesExt
 CONSTANTS MaxItems
 
 Assigning == {"G1", "GR", "GA", "GC", "GT", "GN"}
-Constraining == {"C1", "C1b", "C2", "CA", "CC", "CT", "Q", "QR", "C0"}
+Constraining == {"C1", "C1b", "C2", "CA", "CC", "CT", "Q", "QR", "C0", "CN1", "CN2"}
 Items == Assigning \cup Constraining
 \* the signals (with access text) an assigning item assigns with `<--`
 Assigns == [i \in Assigning |->
   CASE i = "G1" -> {"s1"} [] i = "GR" -> {"s2"} [] i = "GA" -> {"sa[i]"} [] i = "GC" -> {"c.x"} [] i = "GT" -> {"t1", "t2"} [] i = "GN" -> {"p", "q"}]
 Mentions == [i \in Constraining |->
   CASE i = "C1" -> {"s1"} [] i = "C1b" -> {"s1"} [] i = "C2" -> {"s2"} [] i = "CA" -> {"sa[i]"} [] i = "CC" -> {"c.x"} [] i = "CT" -> {"t1"}
-    [] i = "Q" -> {"s1"} [] i = "QR" -> {"s2"} [] i = "C0" -> {}]
+    [] i = "Q" -> {"s1"} [] i = "QR" -> {"s2"} [] i = "C0" -> {}
+    [] i = "CN1" -> {"s1"} [] i = "CN2" -> {"s1"}]      \* anonymous call with two `<==` inputs, s1 as first / second input
 
 VARIABLE prog        \* [items, nest ("none" / "if" / "loop"), rhs ("q": quadratic right-hand sides, "nq": non-quadratic), kind]
 Init == prog \in [items : {S \in SUBSET Items : Cardinality(S) <= MaxItems /\ S \cap Assigning # {}},
